@@ -349,7 +349,7 @@ pub fn run(ctx: &Ctx) {
             }
         }
         // every message length around the block boundaries of the message hash
-        for ml in 0..=200usize {
+        for ml in 0..=300usize {
             fg.push(ForgeCase { hash: h, levels: vec![(8, 5)], qsel: 1, tag: 11, msg_len: ml });
         }
     }
